@@ -18,7 +18,7 @@ def record_table(cfg, rng, limit):
         try:
             sim = hw.getSimulator()
         except Exception as e:
-            return None, 'getSimulator: %s' % e
+            return None, 'RAISED getSimulator: %s: %s' % (type(e).__name__, e)
         vecs, full = library.vectors(cfg['iw'], rng, limit)
         rows = []
         for v in vecs:
@@ -27,9 +27,15 @@ def record_table(cfg, rng, limit):
             try:
                 sim.clk(1)
             except Exception as e:
-                return None, 'clk raised %s on %s' % (e, v)
+                return None, 'RAISED clk: %s: %s on inputs %s' % (type(e).__name__, e, v)
             rows.append(list(v) + [o.get() for o in outs])
     return {'kind': cfg['kind'], 'c': cfg['c'], 'iw': cfg['iw'], 'ow': cfg['ow'], 'full': 1 if full else 0, 'rows': rows}, None
+
+
+def raised(run, cfg, why):
+    """a block that was built but raises when the simulator is created or clocked does not compute its function"""
+    run.violation('%s:%s:raises' % (run.pid, cfg['kind']), {'block': cfg['name'], 'params': cfg['c'], 'error': why},
+                  '%s raises when simulated (%s)' % (cfg['name'], why[:160]))
 
 
 def sanity(run):
@@ -48,7 +54,10 @@ def run_group(run, group, widths, limit, big=False, wide=(), wide_frac=0.25):
     for cfg in cfgs:
         t, why = record_table(cfg, rng, limit)
         if t is None:
-            skipped[cfg['name']] = why
+            if why.startswith('RAISED'):
+                raised(run, cfg, why)
+            else:
+                skipped[cfg['name']] = why
             continue
         tables.append(t)
         metas.append(cfg)
@@ -61,7 +70,10 @@ def run_group(run, group, widths, limit, big=False, wide=(), wide_frac=0.25):
                 continue
             t, why = record_table(cfg, rng, 160)
             if t is None:
-                skipped[cfg['name']] = why
+                if why.startswith('RAISED'):
+                    raised(run, cfg, why)
+                else:
+                    skipped[cfg['name']] = why
                 continue
             tables.append(t)
             metas.append(cfg)
@@ -137,6 +149,8 @@ def run_wide(run, group, width_sets, per_kind, nrows):
                 continue
             t, why = record_table(cfg, rng, nrows)
             if t is None:
+                if why.startswith('RAISED'):
+                    raised(run, cfg, why)
                 continue
             seen[cfg['kind']] = seen.get(cfg['kind'], 0) + 1
             ints.append(t)
